@@ -36,6 +36,8 @@ struct Ent {
     a: u64,
     b: u64,
     d: Vec<u8>,
+    /// the expression ends with a reference to a DIE: (op, target: 0 root, i the i-th child)
+    r: Option<(String, usize)>,
 }
 #[derive(Clone)]
 struct LSpec {
@@ -58,6 +60,9 @@ fn lists_of(v: &Value) -> Vec<LSpec> {
                                     a: uncv(&e["a"]),
                                     b: uncv(&e["b"]),
                                     d: bytes_of(&e["d"]),
+                                    r: e.get("r").filter(|r| r.is_object()).map(|r| {
+                                        (r["op"].as_str().unwrap_or("").to_string(), r["tgt"].as_u64().unwrap_or(0) as usize)
+                                    }),
                                 })
                                 .collect()
                         })
@@ -85,8 +90,16 @@ fn mk_range(e: &Ent) -> Option<Range> {
         _ => return None,
     })
 }
-fn mk_loc(e: &Ent) -> Option<Location> {
-    let data = Expression::raw(e.d.clone());
+fn mk_loc(e: &Ent, uid: gimli::write::UnitId, dies: &[gimli::write::UnitEntryId]) -> Option<Location> {
+    let mut data = Expression::raw(e.d.clone());
+    if let Some((op, tgt)) = &e.r {
+        let id = *dies.get(*tgt)?;
+        match op.as_str() {
+            "call4" => data.op_call(id),
+            "call_ref" => data.op_call_ref(gimli::write::DebugInfoRef::Entry(uid, id)),
+            _ => return None,
+        }
+    }
     Some(match e.k.as_str() {
         "base" => Location::BaseAddress {
             address: Address::Constant(e.a),
@@ -140,10 +153,15 @@ fn run_unit(ver: u16, fmt: Format, asz: u8, le: bool, lp: Option<u64>, lists: &[
     let mut lids: Vec<gimli::write::LocationListId> = vec![];
     let mut classes: Vec<Value> = vec![];
     let mut kinds: Vec<bool> = vec![];
-    for l in lists {
-        let child = unit.add(root, gimli::DW_TAG_subprogram);
+    // all DIEs first, so that expressions can refer to any of them (also forward)
+    let mut dies = vec![root];
+    for _ in lists {
+        dies.push(unit.add(root, gimli::DW_TAG_subprogram));
+    }
+    for (li, l) in lists.iter().enumerate() {
+        let child = dies[li + 1];
         if l.loc {
-            let v: Option<Vec<Location>> = l.ents.iter().map(mk_loc).collect();
+            let v: Option<Vec<Location>> = l.ents.iter().map(|e| mk_loc(e, uid, &dies)).collect();
             let Some(v) = v else { return json!({"t":"bad-entry"}) };
             let id = unit.locations.add(LocationList(v));
             let first = lids.iter().position(|x| *x == id).unwrap_or(lids.len());
@@ -197,6 +215,7 @@ fn run_unit(ver: u16, fmt: Format, asz: u8, le: bool, lp: Option<u64>, lists: &[
         Err(e) => return json!({"t":"read-err","stage":"unit","err":err_name(&e)}),
     };
     let mut out: Vec<Value> = vec![];
+    let mut dieoffs: Vec<u64> = vec![];
     let mut cursor = runit.entries();
     let mut first = true;
     let cap = 64;
@@ -206,6 +225,7 @@ fn run_unit(ver: u16, fmt: Format, asz: u8, le: bool, lp: Option<u64>, lists: &[
             Ok(None) => break,
             Err(x) => return json!({"t":"read-err","stage":"entries","err":err_name(&x)}),
         };
+        dieoffs.push(e.offset().0 as u64);
         if first {
             first = false;
             continue;
@@ -262,7 +282,7 @@ fn run_unit(ver: u16, fmt: Format, asz: u8, le: bool, lp: Option<u64>, lists: &[
     } else {
         sec(SectionId::DebugRanges).len() + sec(SectionId::DebugLoc).len()
     };
-    json!({"t":"ok","classes":classes,"lists":out,"rsec":bytes_json(&rs),"lsec":bytes_json(&ls),"other":other,
+    json!({"t":"ok","classes":classes,"lists":out,"rsec":bytes_json(&rs),"lsec":bytes_json(&ls),"other":other,"dieoffs":dieoffs,
            "low_pc":f(runit.low_pc,wide)})
 }
 
@@ -314,6 +334,11 @@ fn record(out: &str, a: &Args) {
             for _ in 0..ne {
                 let addr = |rng: &mut Rng| (if rng.chance(1, 12) { rng.boundary64() } else { region.wrapping_add(rng.below(0x1000)) }) & m;
                 let d: Vec<u8> = if loc { (0..rng.below(4)).map(|_| rng.next() as u8).collect() } else { vec![] };
+                let r: Option<(String, usize)> = if loc && rng.chance(1, 4) {
+                    Some(((if rng.chance(1, 2) { "call4" } else { "call_ref" }).to_string(), rng.below(nl + 1) as usize))
+                } else {
+                    None
+                };
                 let k = if wild {
                     rng.below(5)
                 } else if ver >= 5 {
@@ -326,29 +351,29 @@ fn record(out: &str, a: &Args) {
                 let e = match k {
                     0 => {
                         have_base = true;
-                        Ent { k: "base".into(), a: addr(&mut rng), b: 0, d: vec![] }
+                        Ent { k: "base".into(), a: addr(&mut rng), b: 0, d: vec![], r: None }
                     }
                     1 => {
                         let b = rng.below(0x800);
                         let len = if wild && rng.chance(1, 6) { 0 } else { 1 + rng.below(0x100) };
-                        Ent { k: "opair".into(), a: b, b: b + len, d }
+                        Ent { k: "opair".into(), a: b, b: b + len, d, r }
                     }
                     2 => {
                         let b = addr(&mut rng);
                         let len = if wild && rng.chance(1, 6) { 0 } else { 1 + rng.below(0x100) };
-                        Ent { k: "se".into(), a: b, b: b.wrapping_add(len) & m, d }
+                        Ent { k: "se".into(), a: b, b: b.wrapping_add(len) & m, d, r }
                     }
                     3 => {
                         let b = addr(&mut rng);
                         let len = if wild && rng.chance(1, 6) { 0 } else { 1 + rng.below(0x100) };
-                        Ent { k: "slen".into(), a: b, b: len, d }
+                        Ent { k: "slen".into(), a: b, b: len, d, r }
                     }
                     _ => {
                         if loc {
-                            Ent { k: "defloc".into(), a: 0, b: 0, d }
+                            Ent { k: "defloc".into(), a: 0, b: 0, d, r }
                         } else {
                             let b = rng.below(0x800);
-                            Ent { k: "opair".into(), a: b, b: b + 1 + rng.below(0x40), d }
+                            Ent { k: "opair".into(), a: b, b: b + 1 + rng.below(0x40), d, r: None }
                         }
                     }
                 };
@@ -361,7 +386,10 @@ fn record(out: &str, a: &Args) {
             .iter()
             .map(|l| {
                 json!({"fam": if l.loc {"loc"} else {"rng"},
-                       "L": l.ents.iter().map(|e| json!({"k":e.k,"a":bv(e.a,8),"b":bv(e.b,8),"d":bytes_json(&e.d)})).collect::<Vec<_>>()})
+                       "L": l.ents.iter().map(|e| match &e.r {
+                           Some((op, tgt)) => json!({"k":e.k,"a":bv(e.a,8),"b":bv(e.b,8),"d":bytes_json(&e.d),"r":{"op":op,"tgt":tgt}}),
+                           None => json!({"k":e.k,"a":bv(e.a,8),"b":bv(e.b,8),"d":bytes_json(&e.d)}),
+                       }).collect::<Vec<_>>()})
             })
             .collect();
         evs.push(json!({"ev":"Unit","enc":{"ver":ver,"asz":asz,"fmt": if fmt == Format::Dwarf64 {64} else {32},"le":le},
